@@ -17,7 +17,8 @@ PROPERTY = "C01"
 LEVEL = "exploration"
 NEED_EXT = True
 REQUIRED = ["get_params", "set_params.key", "set_params.returns_self", "clone", "roundtrip.params",
-            "roundtrip.behaviour", "history.steps", "rebuild.behaviour", "witness", "history.refused_call", "set_params.two_steps", "history.untouched_values_identical"]
+            "roundtrip.behaviour", "history.steps", "rebuild.behaviour", "witness", "history.refused_call", "set_params.two_steps", "history.untouched_values_identical", "history.end_behaviour",
+            "refused_component.behaviour"]
 RULE = ("every registered class (32) x its configurations (2-4 each: nested estimators, stacking lists of 1, 2 and 12 "
         "members, string/callable options, SkBase kwargs) x every key advertised by get_params(deep=True) set once "
         "(enumerated) x random histories of 4-12 get/set/clone operations; non-trivial = configuration with nested "
@@ -398,6 +399,47 @@ def run_keys(case, ctx):
                                       "after set_params(%s=...) %s differs from the object rebuilt from the reported "
                                       "parameters" % (key, m), cfg=c2)
                         break
+        # a component replaced and, in the same call, a nested key the new component does not have: the call is refused,
+        # possibly half applied (scikit-learn's own order) - the object still behaves like what it reports
+        if not spec.abstract and spec.kind != "ts" and spec.methods and spec.name != "TransferTransformer":
+            from sklearn.base import clone
+            for kc in [k for k in sorted(p) if "__" not in k and is_est(p[k]) and any(x.startswith(k + "__") for x in p)]:
+                e6 = spec.make(vi)
+                c6 = dict(cfg, key=kc, call="set_params(%s=<other>, %s__zz_no_such_param=1)" % (kc, kc))
+                try:
+                    v6, ok6 = alt_value(spec, kc, e6.get_params(deep=False).get(kc), rng, e6)
+                    if not ok6 or not is_est(v6):
+                        continue
+                    try:
+                        e6.set_params(**{kc: v6, kc + "__zz_no_such_param": 1})
+                        continue
+                    except Exception:
+                        pass
+                    rebuilt = clone(e6)
+                    D = spec.data(numpy.random.RandomState(7))
+                    Q = spec.query(numpy.random.RandomState(8), D)
+                    numpy.random.seed(11)
+                    spec.fit(rebuilt, D)
+                    o_ref = spec.outputs(rebuilt, Q)
+                except Exception:
+                    ctx.excluded("half-applied refusal: the rebuilt object cannot be fitted")
+                    continue
+                ctx.hit("refused_component.behaviour")
+                try:
+                    D = spec.data(numpy.random.RandomState(7))
+                    Q = spec.query(numpy.random.RandomState(8), D)
+                    numpy.random.seed(11)
+                    spec.fit(e6, D)
+                    o_got = spec.outputs(e6, Q)
+                    badm = [m for m in o_ref if m not in o_got or not same_out(o_ref[m], o_got[m])]
+                    if badm:
+                        ctx.violation(K + "refused-call/behaviour-differs-from-reported-parameters", "after the refused %s the "
+                                      "object answers %s differently from the object rebuilt from what it reports" % (
+                                          c6["call"], badm[0]), cfg=c6)
+                except Exception as e:
+                    ctx.violation(K + "refused-call/behaviour-differs-from-reported-parameters/raised/%s" % type(e).__name__,
+                                  "after the refused %s the object raises where the object rebuilt from what it reports "
+                                  "works: %s" % (c6["call"], str(e)[:120]), cfg=c6)
         # prefixed naming (c_<name> / e_<name>): names both sub-estimators own, both prefixed versions in ONE call
         if spec.name in PREFIX:
             pre = sorted(PREFIX[spec.name].values())
@@ -622,14 +664,23 @@ def run_history(case, ctx):
         cfg["history"].append(op)
         if op == "setbad":
             # a call that must be refused: the object stays usable and the keys that were not given keep their values
-            kind = rngb.randint(4)
+            kind = rngb.randint(5)
             nest = sorted({k.rsplit("__", 1)[0] for k in shadow if "__" in k})
+            comps = [k for k in sorted(shadow) if "__" not in k and is_est(shadow[k]) and any(
+                x.startswith(k + "__") for x in shadow)]
             if kind == 0:
                 upd = {"zz_no_such_param": 1}
             elif kind == 1:
                 upd = {"gamma_": 7}
             elif kind == 2 and nest:
                 upd = {nest[rngb.randint(len(nest))] + "__zz_no_such_param": 1}
+            elif kind == 4 and comps:
+                # a component replaced and, in the same call, a nested key the new component does not have
+                kc = comps[rngb.randint(len(comps))]
+                vc, okc = alt_value(spec, kc, shadow[kc], rngb, est)
+                upd = {kc + "__zz_no_such_param": 1}
+                if okc and is_est(vc):
+                    upd[kc] = vc
             else:
                 upd = {"zz_no_such_param": 1}
                 plain = [k for k in sorted(shadow) if "__" not in k and not is_est(shadow[k])
@@ -653,7 +704,10 @@ def run_history(case, ctx):
                 given = set(upd)
                 moved = [k for k in shadow if k not in given and not any(k.startswith(g + "__") for g in given)
                          and (k not in after or not eq(after[k], shadow[k]))]
-                extra = [k for k in after if k not in shadow and k not in given]
+                # (a component that was given is applied before its nested keys are looked at - scikit-learn's order -
+                # so the nested keys of the new component may appear although the call ends with an error)
+                extra = [k for k in after if k not in shadow and k not in given
+                         and not any(k.startswith(g + "__") for g in given)]
                 if moved or extra:
                     ctx.violation(K + "set_params/refused-call-changed-other-keys",
                                   "set_params(%s) raised %s and changed keys it was not given: %s" % (
@@ -751,6 +805,46 @@ def run_history(case, ctx):
                                   cfg=cfg)
                     break
         shadow = got
+    # ---- at the end of the history the object still BEHAVES like what its reported parameters rebuild (whatever
+    # calls were refused on the way): both fitted on the same data give the same outputs
+    if not spec.abstract and spec.kind != "ts" and spec.methods and spec.name != "TransferTransformer":
+        # (TransferTransformer carries a TRAINED estimator as a parameter: clone drops what it learnt, which a warm-start
+        # learner would go on from - no rebuilt twin exists for it)
+        pe = safe_get(est, ctx, K, cfg) or {}
+        if pe.get("balanced_predictions") and spec.name == "ConstraintKMeans":
+            # transform / score of a balanced 'gain' model index with uninitialised labels (DESIGN section 7, outside
+            # the properties): not a matter of the parameter protocol
+            ctx.excluded("history end: ConstraintKMeans with balanced predictions")
+        elif not any(k.split("__")[-1] == "n_jobs" and v not in (None, 1) for k, v in pe.items()):
+            from sklearn.base import clone
+            try:
+                rebuilt = clone(est)
+                D = spec.data(numpy.random.RandomState(7))
+                Q = spec.query(numpy.random.RandomState(8), D)
+                numpy.random.seed(11)
+                spec.fit(rebuilt, D)
+                o_ref = spec.outputs(rebuilt, Q)
+            except Exception:
+                o_ref = None
+                ctx.excluded("history end: the object rebuilt from the reported parameters cannot be fitted")
+            if o_ref is not None:
+                try:
+                    D = spec.data(numpy.random.RandomState(7))
+                    Q = spec.query(numpy.random.RandomState(8), D)
+                    numpy.random.seed(11)
+                    spec.fit(est, D)
+                    o_got = spec.outputs(est, Q)
+                    ctx.hit("history.end_behaviour")
+                    badm = [m for m in o_ref if m not in o_got or not same_out(o_ref[m], o_got[m])]
+                    if badm:
+                        ctx.violation(K + "history/behaviour-differs-from-rebuilt", "after %r the object, once fitted, "
+                                      "answers %s differently from the object rebuilt from its reported parameters" % (
+                                          cfg["history"][-4:], badm[0]), cfg=cfg)
+                except Exception as e:
+                    ctx.hit("history.end_behaviour")
+                    ctx.violation(K + "history/behaviour-differs-from-rebuilt/raised/%s" % type(e).__name__,
+                                  "after %r the object raises where the object rebuilt from its reported parameters "
+                                  "works: %s" % (cfg["history"][-4:], str(e)[:120]), cfg=cfg)
     if wit is not None:
         check_witness(wit, w0, ctx, K, cfg)
     if nset >= 2:
